@@ -232,7 +232,7 @@ func runSize(c SizeCase) *vkit.Outcome {
 
 var propSize = vkit.NewProp([]string{P}, "c08size", genSize, runSize)
 
-func TestC08SizeStaleness(t *testing.T) { propSize.Check(t) }
+func TestC08SizeStaleness(t *testing.T) { propSize.CrashFile = true; propSize.Check(t) }
 
 // ---------------------------------------------------------------- (b) order + exactly once, real time
 
@@ -464,7 +464,7 @@ func runOrder(c OrderCase) *vkit.Outcome {
 
 var propOrder = vkit.NewProp([]string{P}, "c08order", genOrder, runOrder)
 
-func TestC08Order(t *testing.T) { propOrder.Check(t) }
+func TestC08Order(t *testing.T) { propOrder.CrashFile = true; propOrder.Check(t) }
 
 // ---------------------------------------------------------------- (c) Stop vs Add
 
